@@ -79,15 +79,17 @@ PROPS = {
     },
     "C14": {
         "engine": "opts",
-        "tests": [{"name": "TestC14", "quick": {"checks": 40000, "shards": 2}, "thorough": {"checks": 2000000, "shards": 16}, "count_free": True}],
-        "rule": "every run first enumerates the whole matrix (2 server_id argument pairs x 256 DHCPv6 message types x 9 Server-ID relations {absent, byte-equal, other kind same MAC, same kind other MAC, longer, shorter, EN, UUID, opaque} x relay depth 0..2, and DHCPv4 {DISCOVER, REQUEST} x siaddr {zero, own, other} x option 54 {absent, zero, own, other}); rapid then draws server_id arguments (every accepted type spelling x MAC spelling of 6/8/20 bytes; dotted or v4-mapped IPv4) crossed with the same request dimensions and a stub that may already carry a foreign server id. Oracle: RFC 8415 section 16 table written independently; accepted replies must carry exactly one Server-ID byte-equal to the DUID the harness encodes itself (v4: siaddr and option 54 equal the configured address). Every row is non-trivial; distinct: FNV-64 of the case JSON.",
+        "tests": [{"name": "TestC14", "quick": {"checks": 40000, "shards": 2}, "thorough": {"checks": 2000000, "shards": 16}, "count_free": True},
+                  {"name": "TestC14Hist", "engine": "srv", "quick": {"checks": 2500, "shards": 3}, "thorough": {"checks": 25000, "shards": 8}}],
+        "rule": "TestC14Hist: C01-style histories through the server under chains that start with server_id and continue with any other built-in plugins (stateful ones included): every reply that goes out, whatever the later plugins did to it, must carry this server's identifier (DHCPv4: siaddr and exactly one option 54 equal to the configured address, also inside link-level frames; DHCPv6: exactly one Server-ID equal to the configured DUID in the innermost message). TestC14: every run first enumerates the whole matrix (2 server_id argument pairs x 256 DHCPv6 message types x 9 Server-ID relations {absent, byte-equal, other kind same MAC, same kind other MAC, longer, shorter, EN, UUID, opaque} x relay depth 0..2, and DHCPv4 {DISCOVER, REQUEST} x siaddr {zero, own, other} x option 54 {absent, zero, own, other}); rapid then draws server_id arguments (every accepted type spelling x MAC spelling of 6/8/20 bytes; dotted or v4-mapped IPv4) crossed with the same request dimensions and a stub that may already carry a foreign server id. Oracle: RFC 8415 section 16 table written independently; accepted replies must carry exactly one Server-ID byte-equal to the DUID the harness encodes itself (v4: siaddr and option 54 equal the configured address). Every row is non-trivial (TestC14); at least one reply went out (TestC14Hist); distinct: FNV-64 of the case JSON.",
         "assumptions": ["requests with two Server-ID options or a malformed option 54 are not generated (the statement does not define them)",
                         "for message types the server itself never passes to plugins the handler is given a plain Reply stub"],
     },
     "C17": {
         "engine": "opts",
-        "tests": [{"name": "TestC17", "quick": {"checks": 40000, "shards": 3}, "thorough": {"checks": 1000000, "shards": 16}}],
-        "rule": "rapid draws an option plugin (netmask, router, dns, mtu, searchdomains, staticroute, lease_time, ipv6only, autoconfigure, nbp, sleep; DHCPv4 and DHCPv6 where supported), an accepted argument vector (1..4 addresses, MTU 0..65535, durations, LDH domain lists with labels up to 63 bytes, IPv4 route lists, canonical URLs over http/https/ftp/tftp/none with and without params=), a request (DISCOVER/REQUEST or SOLICIT/REQUEST/RENEW/INFORMATION-REQUEST/REBIND, relay depth 0..2, request list absent or a shuffled subset of the relevant codes plus filler, option 116 present or not) and a stub (OFFER/ACK, yiaddr assigned or not, plugin's option already present or not). Oracle: the expected option bytes are encoded by the harness (RFC 2132/3442/3397/8925/3646/5970) and the reply, read with the harness's own TLV walker, must equal the stub plus exactly that change (header untouched, nothing else added, each option once); domain lists are compared after an independent RFC 1035 decode. Every case is non-trivial; distinct: FNV-64 of the case JSON.",
+        "tests": [{"name": "TestC17", "quick": {"checks": 40000, "shards": 3}, "thorough": {"checks": 1000000, "shards": 16}},
+                  {"name": "TestC17Interleave", "quick": {"checks": 10000, "shards": 1}, "thorough": {"checks": 300000, "shards": 4}}],
+        "rule": "rapid draws an option plugin (netmask, router, dns, mtu, searchdomains, staticroute, lease_time, ipv6only, autoconfigure, nbp, sleep; DHCPv4 and DHCPv6 where supported), an accepted argument vector (1..4 addresses, MTU 0..65535, durations, LDH domain lists with labels up to 63 bytes, IPv4 route lists, canonical URLs over http/https/ftp/tftp/none with and without params=), a request (DISCOVER/REQUEST or SOLICIT/REQUEST/RENEW/INFORMATION-REQUEST/REBIND, relay depth 0..2, request list absent or a shuffled subset of the relevant codes plus filler, option 116 present or not) and a stub (OFFER/ACK, yiaddr assigned or not, plugin's option already present or not). Oracle: the expected option bytes are encoded by the harness (RFC 2132/3442/3397/8925/3646/5970) and the reply, read with the harness's own TLV walker, must equal the stub plus exactly that change (header untouched, nothing else added, each option once); domain lists are compared after an independent RFC 1035 decode. TestC17Interleave configures a plugin for both protocols with different values and lets 2..5 requests pass the handlers before the first reply is serialised (the server serialises a reply only after its chain has run, while other datagrams are being handled): every reply must still carry its own protocol's configured value. Every case is non-trivial (TestC17); both protocols involved (TestC17Interleave); distinct: FNV-64 of the case JSON.",
         "assumptions": ["a parameter request list that is present but empty, or that lists a code twice, is never generated", "option values longer than 255 bytes are left to C19",
                         "whether nbp stops the chain is not asserted (the statement is silent)"],
     },
@@ -119,6 +121,7 @@ PROPS = {
         "rule": "TestC18: rapid draws a structured configuration (server4/server6 present or not; listen absent / scalar / list of 1..4 items / `interface` alias / both; items built from [address][%zone][:port] with bracketed IPv6 and optionally bracketed IPv4, v4-mapped, wrong family, garbage address, empty/garbage port, multicast with and without zone; plugins as a list of 1..5 one-key maps with 0..4 arguments from a vocabulary of IPs, CIDRs, durations, paths, URLs, MAC-bearing values, or missing / null / empty / scalar / map, or an item with two keys) and renders it to YAML in block or flow style with varying quoting, indentation, key order, comments and separators; config.Load's result is compared with the structure (plugin names, strings.Fields arguments, addresses with wildcard/default port/zone, multicast expansion from the harness's own scan of net.Interfaces). TestC18Mutated: 1..4 byte mutations (truncate, bit flip, insert, delete, duplicate line) of a valid rendering must make Load return, never panic. Thorough adds native fuzzing of arbitrary text. Non-trivial: accepted configuration with >= 2 plugins or >= 1 explicit listen item, or a configuration rejected for a listed reason; mutated text that differs from the original. Distinct: FNV-64 of the case JSON.",
         "assumptions": ["plugin names are lower-case identifiers (viper folds key case); argument tokens are strings or canonical decimal integers for YAML (no floats, booleans, dates, ~)",
                         "not asserted: port ranges (99999, -5 are accepted by the code), empty listen lists/values, null protocol sections, unbracketed IPv6 literals",
+                        "a listen item with more than one '%' is taken as zone = what follows the last '%' (as the code documents), so what precedes it is not an address and the item must be rejected",
                         "multicast expansion is compared with the interfaces this sandbox has at run time"],
     },
     "C01": {
